@@ -11,16 +11,19 @@ VARIABLES i, bad, nreject
 vars == <<i, bad, nreject>>
 Init == i = 1 /\ bad = <<>> /\ nreject = 0
 
+\* events of large inputs that every entry point refused carry their length only ("len"; bytes = <<>>)
+LenOf(ev) == IF "len" \in DOMAIN ev THEN ev.len ELSE Len(ev.bytes)
 BadOf(ev) ==
   LET f == ev.bytes
-      ks == [k \in 1..Len(Entries) |-> IF Entries[k] \in DOMAIN ev.out THEN OutcomeClause(Entries[k], f, ev.out[Entries[k]]) ELSE 0]
+      ks == [k \in 1..Len(Entries) |-> IF Entries[k] \in DOMAIN ev.out THEN OutcomeClauseL(Entries[k], f, LenOf(ev), ev.out[Entries[k]]) ELSE 0]
   IN SelectSeq([k \in 1..Len(Entries) |-> <<i, Entries[k], ks[k]>>], LAMBDA t : t[3] # 0)
 
 Next ==
   /\ i <= Len(Rec)
   /\ bad' = bad \o BadOf(Rec[i])
   \* vacuity guard: how many (input, entry) pairs had to be rejected (cheap predicates only)
-  /\ nreject' = nreject + (IF BinMustReject(Rec[i].bytes, "le") THEN 1 ELSE 0) + (IF BinMustReject(Rec[i].bytes, "be") THEN 1 ELSE 0)
+  /\ nreject' = IF "len" \in DOMAIN Rec[i] THEN nreject ELSE
+                nreject + (IF BinMustReject(Rec[i].bytes, "le") THEN 1 ELSE 0) + (IF BinMustReject(Rec[i].bytes, "be") THEN 1 ELSE 0)
                          + (IF PackMustReject(Rec[i].bytes) THEN 1 ELSE 0)
   /\ i' = i + 1
 Spec == Init /\ [][Next]_vars
